@@ -68,7 +68,7 @@ pub(crate) fn split_panic(text: &str) -> (String, String) {
 
 fn rule_for(prop: &str) -> &'static str {
     match prop {
-        "C05" | "C13" => "c13-task-seq: one task (spawn or spawn_and_forget) with a scripted future (0-7 poll steps: stash/drop/wake wakers, Ready, panic) and 0-30 handle operations (run, drop Runnable, wake by ref/by value, clone/drop waker, cancel, drop token, poll/drop Promise) against an exact model of the phase table (scheduling calls, polls, future/output drops, Promise::poll result, moment of the memory release); non-trivial = >=2 handle operations while a Runnable existed, or a wake-up during a poll. c13-task-conc: the same operations on 1 executor thread + 1-2 handle threads; non-trivial = external wake-ups were issued AND the task ran >=2 times; distinct = hash of the JSON case",
+        "C04" | "C05" | "C13" => "c13-task-seq: one task (spawn or spawn_and_forget) with a scripted future (0-7 poll steps: stash/drop/wake wakers, Ready, panic) and 0-30 handle operations (run, drop Runnable, wake by ref/by value, clone/drop waker, cancel, drop token, poll/drop Promise) against an exact model of the phase table (scheduling calls, polls, future/output drops, Promise::poll result, moment of the memory release); non-trivial = >=2 handle operations while a Runnable existed, or a wake-up during a poll. c13-task-conc: the same operations on 1 executor thread + 1-2 handle threads; non-trivial = external wake-ups were issued AND the task ran >=2 times; distinct = hash of the JSON case",
         "C12" => "c12-chan-poll: send/recv futures of the real channel.rs (1-3 senders, capacity 1-8) polled by the harness in a generated order (start send, poll woken or not, receive, cancel a pending send, drop a sender, drop the receiver, settle) with flag wakers; at every quiescence point (only woken futures are polled, until none is woken) no sender may be left waiting with room in the mailbox and no receiver with a message queued or the channel closed; completed sends are delivered exactly once in per-sender order; non-trivial = a sender and the receiver were both suspended. c12-queue-conc: 1-3 producers x 1-6 messages, one consumer, optional close by a producer / by the consumer, on the real queue.rs; per-producer FIFO, exactly once, nothing accepted is lost, Closed is final, len()==0 at quiescence; non-trivial = >=2 producers and a producer met a full queue. c12-chan-threads: sender and receiver futures polled on different threads, what is left in flight is settled and judged by the same quiescence oracle; non-trivial = a sender and the receiver were both suspended; distinct = hash of the JSON case",
         "C14" => "c14-rwlock: 2-3 clones of CachedRwLock<Vec<u32>> on threads, generated write (append) / refresh sequences; a refresh that starts after k appends completed sees >= k entries, lists never shrink, per-writer order; non-trivial = >=2 writers and an append completed during a refresh. c14-taskset: owner loop of BroadcastFuture (register unless scheduled, take_scheduled(1) until None) against 1-2 threads waking generated sub-task indices; every wake-up is followed by the processing of that index or by a notification of the parked owner; no index twice per take; non-trivial = the owner was notified after it had parked; distinct = hash of the JSON case",
         "C15" => "c15-cell: the real SyncCell with a two-word tearable value (k, g(k)): one writer (1-7 writes), 1-2 readers (try_read/read); every value read is untorn and was written, per-reader non-decreasing, a read after an acquire-load of 'k0 written' returns >= k0, a fresh read after the last write returns it; non-trivial = a reader saw >=2 distinct values and a try_read failed because it overlapped a write; distinct = hash of the JSON case",
@@ -78,7 +78,7 @@ fn rule_for(prop: &str) -> &'static str {
 
 fn assumptions_for(prop: &str) -> Vec<&'static str> {
     match prop {
-        "C05" | "C13" => vec![
+        "C04" | "C05" | "C13" => vec![
             "the sequential reference model of the task phase table in lowlab/src/harness/tasks.rs",
             "shuttle explores sequentially consistent interleavings only (every atomic is SeqCst); schedules are sampled by a seeded random / PCT scheduler, not enumerated",
             "task memory accounting: allocations of spawn() are served from a quarantine arena (double free, early/late/missing release and writes after release are seen; reads after release are not)",
@@ -97,7 +97,7 @@ fn run_property(prop: &'static str, tier: &str, seed: u64) -> i32 {
     let shuttle = crate::rt::FLAVOUR == "shuttle";
     let w = |n: usize| std::env::var("LOWLAB_WORKERS").ok().and_then(|s| s.parse().ok()).unwrap_or(n);
     match prop {
-        "C13" | "C05" => {
+        "C13" | "C05" | "C04" => {
             if !shuttle {
                 let n = ctx.n(200_000, 4_000_000);
                 ctx.run(&tasks::TaskSeqSub, n, w(16));
